@@ -59,10 +59,11 @@ class HarnessFault(Exception):
 '''
 
 
-class HarnessError(Exception):
+class HarnessError(BaseException):
     """The harness itself is wrong (model does not satisfy an assumption,
     native run diverged from the symbolic prediction, ...).  Never a pass and
-    never a violation: exit code 2."""
+    never a violation: exit code 2.  (A BaseException, so that a scenario
+    program's ``except Exception`` cannot swallow it.)"""
 
 
 HEX_RE = re.compile(r"0x[0-9a-fA-F]+")
